@@ -38,7 +38,12 @@ CONSTANTS StartSize,   \* 24: LevStart written by CreateEmptyFsBinlog
           MaxRuns,     \* bound on the number of Run()s (restarts)
           Fine,        \* TRUE: writer goroutine at system call granularity
           CheckRotTo,  \* TRUE: the reader verifies levRotateTo.Crc32 (reader.go after the fix)
-          CommitAfterSync  \* TRUE as coded; FALSE = commit notified before fsync (to see CommitDurable fire)
+          CommitAfterSync, \* TRUE as coded; FALSE = commit notified before fsync (to see CommitDurable fire)
+          MaxTears,    \* bound on the number of Tear actions (0: none)
+          TornMode,    \* what a writer start does on a torn tail: "refuse" (as coded: initChunk compares the file size),
+                       \* "cut" (truncate the tail first: also keeps the property), "append" (start and append after
+                       \* the torn bytes: to see ReplayExact fire)
+          Asaps        \* values of the ASAP flag offered to Append
 
 VARIABLES chunk,     \* Options.MaxChunkSize of this binlog
           recs,      \* the logical stream: sequence of records [k, pos, len, id, f]
@@ -60,10 +65,12 @@ VARIABLES chunk,     \* Options.MaxChunkSize of this binlog
           fw, fsy,   \* per file: bytes written / bytes fsynced
           commits,   \* sequence of positions passed to Engine.Commit in the current run
           runs,      \* number of Run()s so far
+          torn,      \* bytes of an incomplete record left after offG in the last file (a crash inside a write)
+          tears,     \* number of Tear actions so far
           hist
 
 wvars == <<chunk, recs, offG, crcAt, fileStart, nextId, appended, bounds>>
-pvars == <<phase, accept, stopReq, asapPend, taken, ops, pc, it, dirty, fw, fsy, commits, runs>>
+pvars == <<phase, accept, stopReq, asapPend, taken, ops, pc, it, dirty, fw, fsy, commits, runs, torn, tears>>
 vars  == <<wvars, pvars, hist>>
 View  == <<wvars, pvars>>
 
@@ -82,7 +89,7 @@ Init == /\ chunk \in Chunks
         /\ taken = Hdr /\ ops = <<>> /\ pc = "idle" /\ it = [cause |-> "none", asap |-> FALSE]
         /\ dirty = FALSE /\ fw = <<Hdr>> /\ fsy = <<Hdr>>
         /\ commits = <<Hdr>>            \* WriteLoop: engine.Commit(ri.Offset, ...) before the loop
-        /\ runs = 1
+        /\ runs = 1 /\ torn = 0 /\ tears = 0
         /\ hist = << [a |-> "Open", chunk |-> chunk] >>
 
 -------------------------------------------------------------------------------
@@ -162,13 +169,13 @@ IterBegin(cause) ==
     /\ it' = [cause |-> cause, asap |-> asapPend]
     /\ asapPend' = FALSE
     /\ pc' = "w"
-    /\ UNCHANGED <<wvars, phase, stopReq, fw, fsy, commits, runs, hist>>
+    /\ UNCHANGED <<wvars, phase, stopReq, fw, fsy, commits, runs, torn, tears, hist>>
 
 OpStep ==
     /\ pc = "w" /\ ops # <<>>
     /\ LET r == ApplyOp(Head(ops), fw, fsy) IN fw' = r[1] /\ fsy' = r[2]
     /\ ops' = Tail(ops)
-    /\ UNCHANGED <<wvars, phase, accept, stopReq, asapPend, taken, pc, it, dirty, commits, runs, hist>>
+    /\ UNCHANGED <<wvars, phase, accept, stopReq, asapPend, taken, pc, it, dirty, commits, runs, torn, tears, hist>>
 
 WantCommit == dirty /\ (it.asap \/ it.cause = "timer" \/ it.cause = "stop")
 After == IF it.cause = "stop" THEN "fin" ELSE "idle"
@@ -176,33 +183,33 @@ After == IF it.cause = "stop" THEN "fin" ELSE "idle"
 WDone ==
     /\ pc = "w" /\ ops = <<>>
     /\ pc' = IF WantCommit THEN (IF CommitAfterSync THEN "sync" ELSE "commit") ELSE After
-    /\ UNCHANGED <<wvars, phase, accept, stopReq, asapPend, taken, ops, it, dirty, fw, fsy, commits, runs, hist>>
+    /\ UNCHANGED <<wvars, phase, accept, stopReq, asapPend, taken, ops, it, dirty, fw, fsy, commits, runs, torn, tears, hist>>
 
 SyncStep ==
     /\ pc = "sync"
     /\ fsy' = [fsy EXCEPT ![Len(fw)] = fw[Len(fw)]]
     /\ pc' = IF CommitAfterSync THEN "commit" ELSE After
     /\ dirty' = IF CommitAfterSync THEN dirty ELSE FALSE
-    /\ UNCHANGED <<wvars, phase, accept, stopReq, asapPend, taken, ops, it, fw, commits, runs, hist>>
+    /\ UNCHANGED <<wvars, phase, accept, stopReq, asapPend, taken, ops, it, fw, commits, runs, torn, tears, hist>>
 
 CommitStep ==
     /\ pc = "commit"
     /\ commits' = Append(commits, taken)
     /\ pc' = IF CommitAfterSync THEN After ELSE "sync"
     /\ dirty' = IF CommitAfterSync THEN FALSE ELSE dirty
-    /\ UNCHANGED <<wvars, phase, accept, stopReq, asapPend, taken, ops, it, fw, fsy, runs, hist>>
+    /\ UNCHANGED <<wvars, phase, accept, stopReq, asapPend, taken, ops, it, fw, fsy, runs, torn, tears, hist>>
 
 Fin ==  \* loop's deferred Sync + Close
     /\ pc = "fin"
     /\ fsy' = [fsy EXCEPT ![Len(fw)] = fw[Len(fw)]]
     /\ phase' = "stopped" /\ pc' = "idle"
-    /\ UNCHANGED <<wvars, accept, stopReq, asapPend, taken, ops, it, dirty, fw, commits, runs, hist>>
+    /\ UNCHANGED <<wvars, accept, stopReq, asapPend, taken, ops, it, dirty, fw, commits, runs, torn, tears, hist>>
 
 ReqStop ==
     /\ phase = "run" /\ ~stopReq
     /\ stopReq' = TRUE
     /\ hist' = Append(hist, [a |-> "Stop"])
-    /\ UNCHANGED <<wvars, phase, accept, asapPend, taken, ops, pc, it, dirty, fw, fsy, commits, runs>>
+    /\ UNCHANGED <<wvars, phase, accept, asapPend, taken, ops, pc, it, dirty, fw, fsy, commits, runs, torn, tears>>
 
 (* the same, one step per iteration: swap, write everything, fsync, commit *)
 FullW == [f \in 1..NFiles |-> FEnd(f) - FStart(f)]
@@ -214,7 +221,7 @@ IterAtomicCore(cause) ==
     /\ dirty' = FALSE
     /\ IF cause = "stop" THEN phase' = "stopped" /\ accept' = FALSE /\ stopReq' = TRUE
                          ELSE UNCHANGED <<phase, accept, stopReq>>
-    /\ UNCHANGED <<wvars, ops, pc, it, runs>>
+    /\ UNCHANGED <<wvars, ops, pc, it, runs, torn, tears>>
 
 (* Sync = "wait until everything appended so far is committed"; offered after an AppendASAP only
    (otherwise the real writer waits for its 500 ms flush timer; seeded random histories cover that) *)
@@ -223,7 +230,7 @@ Stop == IterAtomicCore("stop") /\ hist' = Append(hist, [a |-> "Stop"])
 
 AppendA(n, as) == /\ AppendCore(n, as)
                   /\ hist' = Append(hist, [a |-> "Append", n |-> n, asap |-> as])
-                  /\ UNCHANGED <<phase, accept, stopReq, taken, ops, pc, it, dirty, fw, fsy, commits, runs>>
+                  /\ UNCHANGED <<phase, accept, stopReq, taken, ops, pc, it, dirty, fw, fsy, commits, runs, torn, tears>>
 
 (* Run() again on the same files from resume position P: the reader replays [P, offG), then
    binlog.go:WriteLoop/setupWriterWorker re-initialises the writer from the reader's
@@ -236,24 +243,63 @@ RestartCore(P) ==
     /\ taken' = offG /\ ops' = <<>> /\ pc' = "idle" /\ dirty' = FALSE
     /\ runs' = runs + 1
     /\ crcAt' = offG
-    /\ UNCHANGED <<chunk, recs, offG, fileStart, nextId, appended, bounds, it, fw, fsy>>
-Restart(P, m) == /\ RestartCore(P)
+    /\ bounds' = bounds \cup {offG}
+    /\ UNCHANGED <<chunk, offG, fileStart, nextId, appended, it, fw, fsy, tears>>
+
+(* The torn bytes stay in the file as something that is not a record; a writer that starts anyway
+   (O_APPEND) puts the next event after them while it goes on counting offsets from offG. *)
+TornRec == Rec("torn", offG, 0, 0, NFiles)
+StartedCore(cut) == /\ recs' = IF torn > 0 /\ ~cut THEN Append(recs, TornRec) ELSE recs
+                    /\ torn' = 0
+
+Restart(P, m) == /\ torn > 0 => TornMode \in {"cut", "append"}
+                 /\ RestartCore(P)
+                 /\ StartedCore(TornMode = "cut")
                  /\ commits' = << offG >>        \* WriteLoop: engine.Commit(ri.Offset, ...)
                  /\ hist' = Append(hist, [a |-> "Restart", from |-> P, meta |-> m])
 
+(* writer.go:initChunk: "current position in file is not equal file size" -- Run() fails *)
+Refused(P, m) == /\ phase = "stopped" /\ torn > 0 /\ TornMode = "refuse" /\ IsBoundary(P)
+                 /\ hist' = Append(hist, [a |-> "Restart", from |-> P, meta |-> m])
+                 /\ UNCHANGED <<wvars, pvars>>
+
+(* A crash inside a write: the last file ends at stream position k, inside (or at the start of) one
+   of its records after the file header.  Everything from that record on is lost. *)
+LastHdrIdx == CHOOSE i \in DOMAIN recs : recs[i].f = NFiles /\ recs[i].k \in {"tag", "rotFrom"}
+TearCore(k) ==
+    /\ phase = "stopped" /\ k < offG
+    /\ LET j == CHOOSE i \in DOMAIN recs : recs[i].pos <= k /\ k < End(recs[i])
+           e == recs[j].pos
+       IN /\ j > LastHdrIdx
+          /\ recs' = SubSeq(recs, 1, j - 1)
+          /\ offG' = e /\ taken' = e
+          /\ torn' = k - e
+          /\ appended' = SelectSeq(appended, LAMBDA a : a.at < e)
+          /\ bounds' = {b \in bounds : b <= e} \cup {e}
+          /\ commits' = << e >>
+          /\ fw' = [f \in 1..NFiles |-> (IF f = NFiles THEN e ELSE FEnd(f)) - FStart(f)]
+          /\ fsy' = fw'
+    /\ tears' = tears + 1
+    /\ UNCHANGED <<chunk, crcAt, fileStart, nextId, phase, accept, stopReq, asapPend, ops, pc, it, dirty, runs>>
+Tear(k) == TearCore(k) /\ hist' = Append(hist, [a |-> "Tear", at |-> k])
+TearPoints == IF phase # "stopped" THEN {} ELSE
+              UNION {{r.pos, r.pos + 1, r.pos + 12, End(r) - 1} \cap r.pos..(End(r) - 1)
+                     : r \in {recs[i] : i \in (LastHdrIdx + 1)..Len(recs)}}
+
 NextFine ==
     \/ /\ Len(hist) < MaxOps
-       /\ \/ \E n \in Lens, as \in BOOLEAN : AppendA(n, as)
+       /\ \/ \E n \in Lens, as \in Asaps : AppendA(n, as)
           \/ ReqStop
     \/ \E c \in {"data", "timer", "stop"} : IterBegin(c)
     \/ OpStep \/ WDone \/ SyncStep \/ CommitStep \/ Fin
 
 NextAtomic ==
     /\ Len(hist) < MaxOps
-    /\ \/ \E n \in Lens, as \in BOOLEAN : AppendA(n, as)
+    /\ \/ \E n \in Lens, as \in Asaps : AppendA(n, as)
        \/ Sync
        \/ Stop
-       \/ \E P \in Resume, m \in BOOLEAN : (P = 0 => ~m) /\ Restart(P, m)
+       \/ \E P \in Resume, m \in BOOLEAN : (P = 0 => ~m) /\ (Restart(P, m) \/ Refused(P, m))
+       \/ tears < MaxTears /\ \E k \in TearPoints : Tear(k)
 
 Next == IF Fine THEN NextFine ELSE NextAtomic
 Spec == Init /\ [][Next]_vars
@@ -297,7 +343,9 @@ RECURSIVE Walk(_, _, _, _)
 Walk(i, bad, D, lo) ==
     IF i > Len(recs) THEN Res("none", lo, i, offG)
     ELSE LET r == recs[i] IN
-         IF D.t = "trunc" /\ End(r) > D.at THEN Res("none", lo, i, r.pos)   \* ErrorNotEnoughData, then EOF
+         IF r.k = "torn"      \* not a record: alone at the end it reads as an incomplete one; followed by more
+         THEN Res(IF i = Len(recs) THEN "none" ELSE "torn", lo, i, r.pos)   \* bytes it makes a chimera event
+         ELSE IF D.t = "trunc" /\ End(r) > D.at THEN Res("none", lo, i, r.pos)   \* ErrorNotEnoughData, then EOF
          ELSE LET hit  == D.t = "flip" /\ D.at >= r.pos /\ D.at < End(r)
                   cls  == IF hit THEN Class(r, D.at) ELSE "no"
                   bad1 == IF r.k = "rotFrom" THEN FALSE ELSE bad    \* every file starts from its header's Crc32
